@@ -22,7 +22,7 @@ func init() {
 		ID: "C01", Level: "exploration",
 		Rule: "expression programs: (a) every single-operator expression (6 unary, *, 19 binary, conversions to 34 types, calls, index, slice, selector, assertion, composite literals, builtins, unsafe) over the full 78-atom alphabet in the uses `_ = e` and `x := e`; " +
 			"(b) every atom and every single-operator expression over the 18-atom alphabet in each of ~100 use contexts (typed var, assignment, op-assignment, return, send, if/for/switch/case/range, const, expression statement, defer/go, 2-value define, argument); " +
-			"(c) depth-2 expressions over a reduced alphabet; (x) stages (a) and the atoms x all uses repeated in the XGo-builtin configuration (thorough: also (b)); (d) ~2.4k statement/declaration-rule programs generated from templates over 9 types (redeclaration by := from tuples/comma-ok forms, no-new-variable, tuple assignment, return count/type, range assignment, misplaced break/continue/fallthrough/goto, duplicate cases, value-less calls used as values, ...); (e) the C10 body space; each is built through the canonical front-end operation sequence into a fresh package; oracle: no error reported => every written file parses and go/types reports nothing but unused vars/imports. " +
+			"(c) depth-2 expressions over a reduced alphabet; (x) stages (a) and the atoms x all uses repeated in the XGo-builtin configuration; (d) ~2.4k statement/declaration-rule programs generated from templates over 9 types (redeclaration by := from tuples/comma-ok forms, no-new-variable, tuple assignment, return count/type, range assignment, misplaced break/continue/fallthrough/goto, duplicate cases, value-less calls used as values, ...); (e) the C10 body space; each is built through the canonical front-end operation sequence into a fresh package; oracle: no error reported => every written file parses and go/types reports nothing but unused vars/imports. " +
 			"non-trivial = accepted by the builder; distinct = distinct emitted text",
 		Assumptions:    []string{"go/types 1.23.5 is the Go specification for the oracle", "the environment package (fixture) is type-checked by go/types itself"},
 		ThoroughBudget: 60 * time.Minute,
@@ -77,11 +77,11 @@ func xgoImporter() *fixture.Importer {
 var xgoOpt = gx.Options{Conf: gx.XGoConf}
 
 // runXGo repeats the stages that do not depend on the use context in the XGo-builtin configuration
-// (untyped big-number kinds configured): quick = (a) and the atoms in every use; thorough adds (b).
+// (untyped big-number kinds configured): (a) and the atoms in every use, in both tiers.
 func runXGo(c *vf.Ctx, idx *int64) {
 	imp := xgoImporter()
 	ex.Plan{Thorough: c.Thorough()}.Each(func(stage string, e *ex.E, u *ex.Use) {
-		if stage == "c:depth2" || (stage == "b:depth1-alluses" && !c.Thorough()) {
+		if stage == "c:depth2" || stage == "b:depth1-alluses" {
 			return
 		}
 		i := *idx
